@@ -168,9 +168,10 @@ fn same_bytes(s: &str, exp: &Buf) -> bool {
     if sb.len() != exp.n {
         return false;
     }
+    // exp.n is concrete in every harness (class-driven encoders)
     let mut k = 0;
-    while k < MAXB {
-        if k < exp.n && sb[k] != exp.b[k] {
+    while k < exp.n {
+        if sb[k] != exp.b[k] {
             return false;
         }
         k += 1;
@@ -256,7 +257,7 @@ fn roundtrip_sample(width: u8, be: bool, bom: bool, symbolic_c0: bool) -> u8 {
 }
 
 macro_rules! c17_roundtrip {
-    ($qname:ident, $name:ident, $symname:ident, $width:expr, $be:expr, $bom:expr, $residues:expr, $doc:literal) => {
+    ($qname:ident, $name:ident, $symname:ident, $qunwind:literal, $unwind:literal, $width:expr, $be:expr, $bom:expr, $residues:expr, $doc:literal) => {
         #[doc = $doc]
         ///
         /// QUICK SAMPLE: `load_tail(E(s)) == s` (load_tail = verbatim `decode_raw_bytes` + BOM strip
@@ -264,7 +265,7 @@ macro_rules! c17_roundtrip {
         /// concrete: CBMC acts as an interpreter of the real code); asserts that every length residue
         /// mod 4 the encoding can produce occurred.  BOUNDED (4 texts).
         #[kani::proof]
-        #[kani::unwind(18)]
+        #[kani::unwind($qunwind)]
         fn $qname() {
             let residues = roundtrip_sample($width, $be, $bom, false);
             assert!(residues == $residues, "C17 harness: length residues mod 4 not all covered");
@@ -277,7 +278,7 @@ macro_rules! c17_roundtrip {
         /// enumerated; all data concrete); every feasible length residue mod 4 occurs.
         /// BOUNDED (21 texts).
         #[kani::proof]
-        #[kani::unwind(18)]
+        #[kani::unwind($unwind)]
         fn $name() {
             let residues = roundtrip_set($width, $be, $bom, false);
             assert!(residues == $residues, "C17 harness: length residues mod 4 not all covered");
@@ -289,7 +290,7 @@ macro_rules! c17_roundtrip {
         /// this makes the UTF-16/UTF-32 detection branches live for the solver).
         /// BOUNDED (4 text shapes x 127 first characters).
         #[kani::proof]
-        #[kani::unwind(18)]
+        #[kani::unwind($qunwind)]
         fn $symname() {
             let residues = roundtrip_sample($width, $be, $bom, true);
             assert!(residues == $residues, "C17 harness: length residues mod 4 not all covered");
@@ -297,16 +298,16 @@ macro_rules! c17_roundtrip {
     };
 }
 
-c17_roundtrip!(c17_rtq_utf8, c17_rt_utf8, c17_rtsym_utf8, 1, false, false, 0b1111, "C17(b) UTF-8 without BOM.");
-c17_roundtrip!(c17_rtq_utf8_bom, c17_rt_utf8_bom, c17_rtsym_utf8_bom, 1, false, true, 0b1111, "C17(b) UTF-8 with BOM.");
-c17_roundtrip!(c17_rtq_utf16le, c17_rt_utf16le, c17_rtsym_utf16le, 2, false, false, 0b0101, "C17(b) UTF-16LE without BOM.");
-c17_roundtrip!(c17_rtq_utf16le_bom, c17_rt_utf16le_bom, c17_rtsym_utf16le_bom, 2, false, true, 0b0101, "C17(b) UTF-16LE with BOM.");
-c17_roundtrip!(c17_rtq_utf16be, c17_rt_utf16be, c17_rtsym_utf16be, 2, true, false, 0b0101, "C17(b) UTF-16BE without BOM.");
-c17_roundtrip!(c17_rtq_utf16be_bom, c17_rt_utf16be_bom, c17_rtsym_utf16be_bom, 2, true, true, 0b0101, "C17(b) UTF-16BE with BOM.");
-c17_roundtrip!(c17_rtq_utf32le, c17_rt_utf32le, c17_rtsym_utf32le, 4, false, false, 0b0001, "C17(b) UTF-32LE without BOM.");
-c17_roundtrip!(c17_rtq_utf32le_bom, c17_rt_utf32le_bom, c17_rtsym_utf32le_bom, 4, false, true, 0b0001, "C17(b) UTF-32LE with BOM.");
-c17_roundtrip!(c17_rtq_utf32be, c17_rt_utf32be, c17_rtsym_utf32be, 4, true, false, 0b0001, "C17(b) UTF-32BE without BOM.");
-c17_roundtrip!(c17_rtq_utf32be_bom, c17_rt_utf32be_bom, c17_rtsym_utf32be_bom, 4, true, true, 0b0001, "C17(b) UTF-32BE with BOM.");
+c17_roundtrip!(c17_rtq_utf8, c17_rt_utf8, c17_rtsym_utf8, 9, 11, 1, false, false, 0b1111, "C17(b) UTF-8 without BOM.");
+c17_roundtrip!(c17_rtq_utf8_bom, c17_rt_utf8_bom, c17_rtsym_utf8_bom, 12, 14, 1, false, true, 0b1111, "C17(b) UTF-8 with BOM.");
+c17_roundtrip!(c17_rtq_utf16le, c17_rt_utf16le, c17_rtsym_utf16le, 10, 12, 2, false, false, 0b0101, "C17(b) UTF-16LE without BOM.");
+c17_roundtrip!(c17_rtq_utf16le_bom, c17_rt_utf16le_bom, c17_rtsym_utf16le_bom, 12, 14, 2, false, true, 0b0101, "C17(b) UTF-16LE with BOM.");
+c17_roundtrip!(c17_rtq_utf16be, c17_rt_utf16be, c17_rtsym_utf16be, 10, 12, 2, true, false, 0b0101, "C17(b) UTF-16BE without BOM.");
+c17_roundtrip!(c17_rtq_utf16be_bom, c17_rt_utf16be_bom, c17_rtsym_utf16be_bom, 12, 14, 2, true, true, 0b0101, "C17(b) UTF-16BE with BOM.");
+c17_roundtrip!(c17_rtq_utf32le, c17_rt_utf32le, c17_rtsym_utf32le, 14, 14, 4, false, false, 0b0001, "C17(b) UTF-32LE without BOM.");
+c17_roundtrip!(c17_rtq_utf32le_bom, c17_rt_utf32le_bom, c17_rtsym_utf32le_bom, 18, 18, 4, false, true, 0b0001, "C17(b) UTF-32LE with BOM.");
+c17_roundtrip!(c17_rtq_utf32be, c17_rt_utf32be, c17_rtsym_utf32be, 14, 14, 4, true, false, 0b0001, "C17(b) UTF-32BE without BOM.");
+c17_roundtrip!(c17_rtq_utf32be_bom, c17_rt_utf32be_bom, c17_rtsym_utf32be_bom, 18, 18, 4, true, true, 0b0001, "C17(b) UTF-32BE with BOM.");
 
 /// a symbolic scalar value whose UTF-8 form has exactly `class` bytes (class 1 excludes U+0000;
 /// class 3 excludes the surrogates D800..DFFF); `class` is concrete
@@ -325,14 +326,14 @@ fn roundtrip_class2(width: u8, be: bool, bom: bool, class1: u8) {
 }
 
 macro_rules! c17_roundtrip_any {
-    ($name:ident, $width:expr, $be:expr, $bom:expr, $doc:literal) => {
+    ($name:ident, $unwind:literal, $width:expr, $be:expr, $bom:expr, $doc:literal) => {
         #[doc = $doc]
         ///
         /// (b+) `load_tail(E(c0 c1)) == c0 c1` for c0 ANY ASCII 0x01..=0x7F and c1 ANY Unicode
         /// scalar value except U+0000 (four sub-cases by UTF-8 length class, content fully
         /// symbolic).  BOUNDED (texts of exactly 2 scalars).
         #[kani::proof]
-        #[kani::unwind(18)]
+        #[kani::unwind($unwind)]
         fn $name() {
             roundtrip_class2($width, $be, $bom, 1);
             roundtrip_class2($width, $be, $bom, 2);
@@ -342,16 +343,16 @@ macro_rules! c17_roundtrip_any {
     };
 }
 
-c17_roundtrip_any!(c17_rtany_utf8, 1, false, false, "C17(b+) UTF-8 without BOM.");
-c17_roundtrip_any!(c17_rtany_utf8_bom, 1, false, true, "C17(b+) UTF-8 with BOM.");
-c17_roundtrip_any!(c17_rtany_utf16le, 2, false, false, "C17(b+) UTF-16LE without BOM.");
-c17_roundtrip_any!(c17_rtany_utf16le_bom, 2, false, true, "C17(b+) UTF-16LE with BOM.");
-c17_roundtrip_any!(c17_rtany_utf16be, 2, true, false, "C17(b+) UTF-16BE without BOM.");
-c17_roundtrip_any!(c17_rtany_utf16be_bom, 2, true, true, "C17(b+) UTF-16BE with BOM.");
-c17_roundtrip_any!(c17_rtany_utf32le, 4, false, false, "C17(b+) UTF-32LE without BOM.");
-c17_roundtrip_any!(c17_rtany_utf32le_bom, 4, false, true, "C17(b+) UTF-32LE with BOM.");
-c17_roundtrip_any!(c17_rtany_utf32be, 4, true, false, "C17(b+) UTF-32BE without BOM.");
-c17_roundtrip_any!(c17_rtany_utf32be_bom, 4, true, true, "C17(b+) UTF-32BE with BOM.");
+c17_roundtrip_any!(c17_rtany_utf8, 7, 1, false, false, "C17(b+) UTF-8 without BOM.");
+c17_roundtrip_any!(c17_rtany_utf8_bom, 10, 1, false, true, "C17(b+) UTF-8 with BOM.");
+c17_roundtrip_any!(c17_rtany_utf16le, 8, 2, false, false, "C17(b+) UTF-16LE without BOM.");
+c17_roundtrip_any!(c17_rtany_utf16le_bom, 10, 2, false, true, "C17(b+) UTF-16LE with BOM.");
+c17_roundtrip_any!(c17_rtany_utf16be, 8, 2, true, false, "C17(b+) UTF-16BE without BOM.");
+c17_roundtrip_any!(c17_rtany_utf16be_bom, 10, 2, true, true, "C17(b+) UTF-16BE with BOM.");
+c17_roundtrip_any!(c17_rtany_utf32le, 10, 4, false, false, "C17(b+) UTF-32LE without BOM.");
+c17_roundtrip_any!(c17_rtany_utf32le_bom, 14, 4, false, true, "C17(b+) UTF-32LE with BOM.");
+c17_roundtrip_any!(c17_rtany_utf32be, 10, 4, true, false, "C17(b+) UTF-32BE without BOM.");
+c17_roundtrip_any!(c17_rtany_utf32be_bom, 14, 4, true, true, "C17(b+) UTF-32BE with BOM.");
 
 /// (a) totality of `decode_raw_bytes` for one concrete length L: every byte string of exactly L
 /// bytes is decoded without panic, arithmetic overflow or out-of-bounds access (Kani's built-in
